@@ -8,7 +8,7 @@ TARGETS = ["Props/C19.v"]
 INERT = "INERTxq7"
 
 PAYLOADS = [
-    'a"b', "a\\b", 'a\\"b', "*/ x /*", "]", "#[derive(Evil)]", "{}", "{0}", "{{", "}", '"#', "r#\"x\"#", "line1\nline2", "a\r\nb",
+    'a"b', "a\\b", 'a\\"b', "*/ x /*", "]", "#[derive(Evil)]", "{}", "{0}", "{{", "}", '"#', "r#\"x\"#", "line1\nline2", "a\r\nb", "a\rb", "x\r",
     "nul\u0000x", "‮evil", "'", "//c", "/*c", "`tick`", "${x}", "; fn pwn() {}", "\")]; struct P;", "<T>", "\t", "é日😀",
 ]
 LONG = "L" * 65536
@@ -206,6 +206,11 @@ def main(tier, seed, replay=None):
         if rc != 0:
             crashed = "panicked" in txt
             viol.append((posname, pl, mode, f"payload {pl[:30]!r} at {posname}: generator {'panicked' if crashed else 'failed'} rc={rc}: {txt[-200:]}"))
+            continue
+        # a bare carriage return can only be a line break of the file itself, never part of a comment (rustc rejects it)
+        cr = [f for f in files if re.search(rb"\r(?!\n)", open(f, "rb").read())]
+        if cr:
+            viol.append((posname, pl, mode, f"payload {pl[:30]!r} at {posname}: {os.path.basename(cr[0])} contains a bare carriage return (rustc: bare CR not allowed in doc-comment)"))
             continue
         sks = [sk[f] for f in files]
         bad = [s for s in sks if "error" in s]
